@@ -17,7 +17,7 @@ def fragOf (e : Event) : Option FragmentDef :=
   | _ => none
 
 def opEvents (evs : List Event) : List OperationDef := evs.filterMap opOf
-def fragEvents (evs : List Event) : List FragmentDef := evs.filterMap fragOf
+def fragDefEvents (evs : List Event) : List FragmentDef := evs.filterMap fragOf
 
 /-- neither an `operation` nor a `fragment` payload -/
 def Payload.inner : Payload → Prop
@@ -43,13 +43,13 @@ theorem opEvents_inner {evs : List Event} (h : AllP Payload.inner evs) : opEvent
     rw [this]
     exact ih hr
 
-theorem fragEvents_inner {evs : List Event} (h : AllP Payload.inner evs) : fragEvents evs = [] := by
+theorem fragDefEvents_inner {evs : List Event} (h : AllP Payload.inner evs) : fragDefEvents evs = [] := by
   induction evs with
   | nil => rfl
   | cons e rest ih =>
     have he := h e List.mem_cons_self
     have hr : AllP Payload.inner rest := fun x hx => h x (List.mem_cons_of_mem _ hx)
-    simp only [fragEvents, List.filterMap_cons]
+    simp only [fragDefEvents, List.filterMap_cons]
     have : fragOf e = none := by
       unfold fragOf
       cases hp : e.p <;> simp_all [Payload.inner]
@@ -59,8 +59,8 @@ theorem fragEvents_inner {evs : List Event} (h : AllP Payload.inner evs) : fragE
 theorem opEvents_append (a b : List Event) : opEvents (a ++ b) = opEvents a ++ opEvents b := by
   simp [opEvents, List.filterMap_append]
 
-theorem fragEvents_append (a b : List Event) : fragEvents (a ++ b) = fragEvents a ++ fragEvents b := by
-  simp [fragEvents, List.filterMap_append]
+theorem fragDefEvents_append (a b : List Event) : fragDefEvents (a ++ b) = fragDefEvents a ++ fragDefEvents b := by
+  simp [fragDefEvents, List.filterMap_append]
 
 theorem walkVarDefsA_inner (s : SV) (cur : Option OperationDef) (ws : WS) :
     ∀ vs : List VarDef, AllP Payload.inner (walkVarDefsA s cur ws vs)
@@ -71,7 +71,7 @@ theorem walkVarDefsA_inner (s : SV) (cur : Option OperationDef) (ws : WS) :
 
 theorem walkOperation_events (s : SV) (d : QueryDoc) (fuel : Nat) (op : OperationDef) (l : Links)
     (r : Links × List Event) (h : walkOperation s d fuel op l = some r) :
-    opEvents r.2 = [op] ∧ fragEvents r.2 = [] := by
+    opEvents r.2 = [op] ∧ fragDefEvents r.2 = [] := by
   unfold walkOperation at h
   simp only at h
   split at h
@@ -90,12 +90,12 @@ theorem walkOperation_events (s : SV) (d : QueryDoc) (fuel : Nat) (op : Operatio
     constructor
     · rw [opEvents_append, opEvents_inner hpre]
       rfl
-    · rw [fragEvents_append, fragEvents_inner hpre]
+    · rw [fragDefEvents_append, fragDefEvents_inner hpre]
       rfl
 
 theorem walkFragment_events (s : SV) (d : QueryDoc) (fuel : Nat) (f : FragmentDef) (l : Links)
     (r : Links × List Event) (h : walkFragment s d fuel f l = some r) :
-    opEvents r.2 = [] ∧ fragEvents r.2 = [f] := by
+    opEvents r.2 = [] ∧ fragDefEvents r.2 = [f] := by
   unfold walkFragment at h
   simp only at h
   split at h
@@ -111,12 +111,12 @@ theorem walkFragment_events (s : SV) (d : QueryDoc) (fuel : Nat) (f : FragmentDe
     constructor
     · rw [opEvents_append, opEvents_inner hpre]
       rfl
-    · rw [fragEvents_append, fragEvents_inner hpre]
+    · rw [fragDefEvents_append, fragDefEvents_inner hpre]
       rfl
 
 theorem walkOps_events (s : SV) (d : QueryDoc) (fuel : Nat) :
     ∀ (ops : List OperationDef) (l : Links) (r : Links × List Event), walkOps s d fuel ops l = some r →
-      opEvents r.2 = ops ∧ fragEvents r.2 = []
+      opEvents r.2 = ops ∧ fragDefEvents r.2 = []
   | [], l, r, h => by
     simp only [walkOps] at h
     injection h with h
@@ -134,11 +134,11 @@ theorem walkOps_events (s : SV) (d : QueryDoc) (fuel : Nat) :
         subst h
         have a := walkOperation_events s d fuel op l r1 h1
         have b := walkOps_events s d fuel rest r1.1 r2 h2
-        simp [opEvents_append, fragEvents_append, a.1, a.2, b.1, b.2]
+        simp [opEvents_append, fragDefEvents_append, a.1, a.2, b.1, b.2]
 
 theorem walkFrags_events (s : SV) (d : QueryDoc) (fuel : Nat) :
     ∀ (fs : List FragmentDef) (l : Links) (r : Links × List Event), walkFrags s d fuel fs l = some r →
-      opEvents r.2 = [] ∧ fragEvents r.2 = fs
+      opEvents r.2 = [] ∧ fragDefEvents r.2 = fs
   | [], l, r, h => by
     simp only [walkFrags] at h
     injection h with h
@@ -156,12 +156,12 @@ theorem walkFrags_events (s : SV) (d : QueryDoc) (fuel : Nat) :
         subst h
         have a := walkFragment_events s d fuel f l r1 h1
         have b := walkFrags_events s d fuel rest r1.1 r2 h2
-        simp [opEvents_append, fragEvents_append, a.1, a.2, b.1, b.2]
+        simp [opEvents_append, fragDefEvents_append, a.1, a.2, b.1, b.2]
 
 /-- the `operation` events of a run are the operations of the document, in order, once each; the
     `fragment` events are its fragment definitions, in order, once each -/
 theorem walkDoc_events (s : SV) (d : QueryDoc) (evs : List Event) (h : walkDoc s d = some evs) :
-    opEvents evs = d.ops ∧ fragEvents evs = d.frags := by
+    opEvents evs = d.ops ∧ fragDefEvents evs = d.frags := by
   unfold walkDoc at h
   split at h
   · cases h
@@ -173,7 +173,7 @@ theorem walkDoc_events (s : SV) (d : QueryDoc) (evs : List Event) (h : walkDoc s
       subst h
       have a := walkOps_events s d _ d.ops _ r1 h1
       have b := walkFrags_events s d _ d.frags _ r2 h2
-      simp [opEvents_append, fragEvents_append, a.1, a.2, b.1, b.2]
+      simp [opEvents_append, fragDefEvents_append, a.1, a.2, b.1, b.2]
 
 /- ---------- one rule on a stream ---------- -/
 
